@@ -1,16 +1,27 @@
+(* C10-specific lemmas: the history model against the spec checker, concrete instances. *)
 From Coq Require Import Sorting.Sorted Sorting.Permutation.
-From VM Require Import Prelude.MachInt Prelude.Outcome Prelude.Tok Impl.Address Impl.Mmap Spec.C10 Suite.C10.
+From VM Require Import Prelude.MachInt Prelude.Outcome Prelude.Tok Impl.Address Impl.Mmap Proofs.Mmap
+  Spec.C10 Suite.C10.
 
-Section Gen.
-Context {A : Type} (rs rl : A -> N).
-
-Lemma region_new_refuses_lemma (mk : N -> N -> A) base size :
-  (W64 <= base + size -> region_new mk base size = Err EInvalidGuestRegion) /\
-  (base + size < W64 -> region_new mk base size = Ok (mk base size)).
+(* one-byte overlap and equal starts are refused, adjacency is accepted *)
+Lemma insert_boundaries_lemma {A} (rs rl : A -> N) m L r x : wf_layout rs rl L -> region_ok rs rl r -> In x L ->
+  (rs r = rs x + rl x - 1 -> insert_region rs rl m L r = Val (Err EMemoryRegionOverlap)) /\
+  (rs r + rl r - 1 = rs x -> insert_region rs rl m L r = Val (Err EMemoryRegionOverlap)) /\
+  (rs r = rs x -> insert_region rs rl m L r = Val (Err EMemoryRegionOverlap)) /\
+  (L = [x] -> (rs r = rs x + rl x \/ rs r + rl r = rs x) ->
+     exists L', insert_region rs rl m L r = Val (Ok L') /\ Permutation L' [r; x]).
 Proof.
-  unfold region_new. split; intros H.
-  - apply checked_add_None in H. rewrite H. reflexivity.
-  - destruct (checked_add base size) as [c|] eqn:E; [reflexivity|].
-    apply checked_add_None in E. lia.
+  intros Hw Hr Hx.
+  assert (Hxok : region_ok rs rl x). { destruct Hw as (Hok & _). rewrite Forall_forall in Hok. exact (Hok x Hx). }
+  destruct Hxok as [Hx1 Hx2]. destruct Hr as [Hr1 Hr2].
+  destruct (insert_err_iff_lemma rs rl m L r Hw (conj Hr1 Hr2)) as [He Hk].
+  repeat split.
+  - intros E. apply He. split; [reflexivity|]. exists x. split; [exact Hx|]. unfold overlaps. lia.
+  - intros E. apply He. split; [reflexivity|]. exists x. split; [exact Hx|]. unfold overlaps. lia.
+  - intros E. apply He. split; [reflexivity|]. exists x. split; [exact Hx|]. unfold overlaps. lia.
+  - intros -> Hadj. destruct Hk as [_ Hk]. destruct Hk as (L' & E).
+    + intros y [<-|[]]. unfold overlaps. lia.
+    + exists L'. split; [exact E|]. exact (proj2 (insert_ok_lemma rs rl m [x] r L' Hw (conj Hr1 Hr2) E)).
 Qed.
-End Gen.
+
+Definition stable_sort_spec_lemma2 (A : Type) (rs : A -> N) (l : list A) := @stable_sort_spec_lemma A rs rs l.
